@@ -37,27 +37,50 @@ RULE = ("seeded random programs of 8-25 (thorough 40) operations over up to 8 ob
         "Distinct = distinct program; non-trivial = at least one link to a link or a write through a link.")
 
 
+def _value(rng, counter):
+    """mostly distinct strings; sometimes None, scalars that compare equal across types (1 == True == 1.0), or a fresh
+    mutable list (every list token names its own object)"""
+    r = rng.random()
+    if r < 0.6:
+        return "v%d" % rng.randrange(100)
+    if r < 0.85:
+        return rng.choice(["None", "True", "False", "0", "1", "1.0", "''"])
+    counter[0] += 1
+    return "L%d" % counter[0]
+
+
 def generate(tier, rng):
     for _ in range(600 if tier == "quick" else 8000):
         ops = [{"op": "new"}]
         n = 1
+        ctr = [0]
+        final = {0: "any"}          # object -> class of the object it finally resolves to ("any" | "ro")
         links = set()
         L = rng.randrange(8, 26 if tier == "quick" else 41)
         for _ in range(L):
             r = rng.random()
             if r < 0.1 and n < 8:
-                ops.append({"op": "new"})
+                if rng.random() < 0.4:
+                    ops.append({"op": "new", "kind": "ro"})      # a target class with a read-only property `ro`
+                    final[n] = "ro"
+                else:
+                    ops.append({"op": "new"})
+                    final[n] = "any"
                 n += 1
             elif r < 0.3 and n < 8:
                 t = rng.randrange(n)
-                kw = [[rng.choice(NAMES), "v%d" % rng.randrange(100)] for _ in range(rng.choice([0, 0, 1, 2]))]
+                kw = [[rng.choice(NAMES), _value(rng, ctr)] for _ in range(rng.choice([0, 0, 1, 2]))]
                 kw = list({k: v for k, v in kw}.items())
                 kw = [[k, v] for k, v in kw]
                 ops.append({"op": "link", "t": t, "kw": kw})
                 links.add(n)
+                final[n] = final[t]
                 n += 1
+            elif r < 0.36 and any(v == "ro" for v in final.values()):
+                # an assignment the target refuses (read-only property): AttributeError, nothing stored anywhere
+                ops.append({"op": "setro", "i": rng.choice([i for i, v in final.items() if v == "ro"]), "v": _value(rng, ctr)})
             elif r < 0.55:
-                ops.append({"op": "set", "i": rng.randrange(n), "k": rng.choice(NAMES), "v": "v%d" % rng.randrange(100)})
+                ops.append({"op": "set", "i": rng.randrange(n), "k": rng.choice(NAMES), "v": _value(rng, ctr)})
             elif r < 0.8:
                 ops.append({"op": "get", "i": rng.randrange(n), "k": rng.choice(NAMES + ["missing"])})
             elif r < 0.9:
